@@ -72,12 +72,19 @@ func verifC07WritePipe() {
 	pos := 0
 	failed := false
 	piece := []int{1, 2, 5, 6, 0}[vInt(0, 4)] // Write piece size: fixed per run (0: everything)
+	relay := make([]byte, len(stream)+1)
 	for pos < len(stream) {
 		n := piece
 		if n == 0 || n > len(stream)-pos {
 			n = len(stream) - pos
 		}
-		m, err := c.Write(stream[pos : pos+n])
+		// the caller relays through one reused buffer (as io.Copy does): the bytes
+		// handed to Write are overwritten as soon as Write has returned
+		copy(relay, stream[pos:pos+n])
+		m, err := c.Write(relay[:n])
+		for k := range relay {
+			relay[k] = 0xEE
+		}
 		if err != nil {
 			failed = true
 			break
